@@ -43,6 +43,7 @@ THEOREMS = ['C07_plane_intersection_on_both', 'C07_plane_intersection_direction'
             'C07_walk_never_hangs_on_hexagons',
             'C07_hex_base_vectors_partial', 'C07_proj_par_meaning',
             'C07_hex_adjacency_geometry', 'C07_hex_base_vectors',
+            'C07_base_vector_carries_opposite_plane',
             'C07_regular_hexagon_in_family']
 TRUSTED = [
     'hand-written model coq/C07/Model.v (modelled, tied by execution only)',
